@@ -593,10 +593,35 @@ func (m *Machine) slice(instr *ssa.Slice, x, lo, hi, max Value) Value {
 	panic(m.unsupported(fmt.Sprintf("slice of %T", x)))
 }
 
+// AllocBound: the largest byte slice the package under test may allocate with a size that is not a
+// constant (two flow-control windows). Sizes that depend on input - a peer's frame - must stay below
+// it on every path: implicit obligation ALLOC (a peer must not be able to make an endpoint allocate
+// memory at will, whatever is later stored in it).
+const AllocBound = 2 * 65536
+
 func (m *Machine) makeSlice(instr *ssa.MakeSlice, ln, cp Value) Value {
 	if isByteSeqType(instr.Type()) {
 		l := ln.(*smt.Term)
 		c := m.C
+		if m.inLibrary(instr.Parent()) {
+			for _, sz := range []Value{ln, cp} {
+				if t, ok := sz.(*smt.Term); ok && !t.IsConst() {
+					x := t
+					if x.S.W < 64 {
+						x = c.Zext(x, 64)
+					}
+					p := m.posString(instr.Pos())
+					// (first ask for a size that a native replay can tell from noise: > 64 MiB)
+					huge := c.Cmp(smt.OULE, x, c.BV(1<<26, 64))
+					within := c.Cmp(smt.OULE, x, c.BV(AllocBound, 64))
+					msg := "allocation of a byte slice whose size an input controls can exceed two flow-control windows at " + p
+					if !m.obligation(huge, "ALLOC", p, msg) {
+						m.obligation(within, "ALLOC", p, msg)
+					}
+					m.Assume(within)
+				}
+			}
+		}
 		if l.IsConst() {
 			return m.concSeq(make([]byte, int(l.Val)))
 		}
